@@ -5,5 +5,6 @@ import (
 	_ "verif/checks/c01"
 	_ "verif/checks/c02"
 	_ "verif/checks/c05"
+	_ "verif/checks/c08"
 	_ "verif/checks/c11"
 )
